@@ -39,6 +39,9 @@ struct aln_mem{
 
         int sip;
         int mode;
+#ifdef KALIGN_VERIF
+        int kv_par;             /* 1 while the parallel controller drives this memory */
+#endif
 };
 
 #endif
